@@ -263,7 +263,7 @@ def run(tier, seed):
     common.Report.finish = finish
     try:
         return base.run_state_property(
-            PROP, LEVEL, state_fn, tier, seed, which=base.NO_LONG, reduced=base.REDUCED_LIGHT, params=params, flavours=(0, 1, 2, 4, 5),
+            PROP, LEVEL, state_fn, tier, seed, thorough_full=(0, 1), which=base.NO_LONG, reduced=base.REDUCED_LIGHT, params=params, flavours=(0, 1, 2, 4, 5),
             vacuity={'states_with_minus': 10, 'states_multi_run': 10, 'states_shared_event_instant': 10},
             sample_fn=base.default_samples,
             assumptions=['files go to a private scratch directory removed at exit', 'events sharing one instant may come back in any order',
